@@ -792,8 +792,10 @@ class AuthServer(Server):
         super().__init__()
         self.valid = set(valid)
         self.latency = latency
-        self.closed_at: dict[int, float] = {}      # credentials value -> first time a session with it was closed
-        self.closed_sessions: list[int] = []       # serials of the sessions closed (= items invalidated)
+        self.closed_at: dict[int, float] = {}      # credentials value -> first time a session with it was closed by invalidation
+        self.closed_sessions: list[int] = []       # serials of the sessions closed (= items invalidated or expired)
+        self.exp: dict[int, int] = {}              # credentials value -> expiration (s), if any
+        self.expired_at: dict[int, float] = {}     # credentials value -> when the vault dropped them as expired
         self.n_sessions = 0
 
 
@@ -818,17 +820,24 @@ class AuthSession(CredSession):
         if self.closed:                      # closed while the request was in flight
             rec['fault'] = ('closed-in-flight',)
             raise RuntimeError('Session is closed')
-        if self.cred not in self.server.valid:
+        e = self.server.exp.get(self.cred)
+        if self.cred not in self.server.valid or (e is not None and loop.time() >= e):
             rec['fault'] = ('status', 401, None, None)
             return FakeResponse(401, {}, {'kind': 'Status', 'code': 401, 'message': 'Unauthorized'})
         rec['fault'] = ('ok',)
         return FakeResponse(200, {}, {})
 
     async def close(self) -> None:
+        now = asyncio.get_running_loop().time()
         if not self.closed:
             self.server.closed_sessions.append(self.serial)
+            # closed because the vault invalidated it (after a 401 on it) or because it expired?
+            rejected = any(r.get('sess') == self.serial and r.get('fault', ('',))[0] == 'status' for r in self.server.log)
+            if rejected:
+                self.server.closed_at.setdefault(self.cred, now)
+            else:
+                self.server.expired_at.setdefault(self.cred, now)
         self.closed = True
-        self.server.closed_at.setdefault(self.cred, asyncio.get_running_loop().time())
 
 
 def run_vault(case: dict) -> dict:
@@ -840,8 +849,12 @@ def run_vault(case: dict) -> dict:
     from kopf._cogs.structs import credentials, ephemera
     from kopf._core.engines import activities, indexing
     from kopf._core.intents import registries
+    from kv import clock
+    clock.install()          # the vault reads the wall clock through credentials.datetime: EPOCH + loop.time()
+    clock.set_offset(0)
     loop = vloop.new_loop()
     server = AuthServer({c for _, c, _ in case['init']}, case['latency'])
+    server.exp = {int(c): e for c, e in case.get('exp', {}).items()}
     log: list[tuple] = []
     ids: dict[int, int] = {}
     items: list[Any] = []     # keep the objects alive so that id() is not recycled
@@ -858,7 +871,9 @@ def run_vault(case: dict) -> dict:
             return res
 
     def mkinfo(key: str, cred: int, prio: int) -> Any:
-        return credentials.AiohttpSession(server='http://fake', priority=prio, aiohttp_session=AuthSession(server, cred))
+        e = server.exp.get(cred)
+        return credentials.AiohttpSession(server='http://fake', priority=prio, aiohttp_session=AuthSession(server, cred),
+                                          expiration=None if e is None else clock.at(e))
 
     def number_new_items(vault: Any, keys: list[str]) -> None:
         for k in keys:
@@ -870,7 +885,7 @@ def run_vault(case: dict) -> dict:
     async def main() -> None:
         vault = credentials.Vault({k: mkinfo(k, c, p) for k, c, p in case['init']})
         number_new_items(vault, [k for k, _, _ in case['init']])
-        for name in ('_guard', 'select', 'invalidate', 'wait_for_emptiness', '_update_converted', 'populate', '_ready', '_current', '_invalid'):
+        for name in ('_guard', 'select', 'invalidate', 'wait_for_emptiness', '_update_converted', 'populate', '_ready', '_current', '_invalid', '_expire'):
             if not hasattr(vault, name):
                 raise RuntimeError(f'observation point missing: Vault.{name}')
         vault._guard = asyncio.Condition(lock=LoggedLock())
@@ -901,10 +916,18 @@ def run_vault(case: dict) -> dict:
 
         def update_converted(src: Any) -> None:
             log.append(('populate', [(k, i.aiohttp_session.cred, i.priority) for k, i in src.items()],
-                        frozenset(server.valid), frozenset(server.closed_at)))
+                        frozenset(c for c in server.valid if server.exp.get(c) is None or loop.time() < server.exp[c]), frozenset(server.closed_at)))
             orig_upd(src)
             number_new_items(vault, list(src))
 
+        orig_expire = vault._expire
+
+        async def _expire() -> None:
+            log.append(('expire-enter', tname(), loop.time()))
+            await orig_expire()
+            log.append(('expire-exit', tname()))
+
+        vault._expire = _expire                                                 # type: ignore[method-assign]
         vault.select, vault.invalidate = select, invalidate                     # type: ignore[method-assign]
         vault.wait_for_emptiness, vault._update_converted = wait_for_emptiness, update_converted  # type: ignore[method-assign]
         auth.vault_var.set(vault)
@@ -950,7 +973,7 @@ def run_vault(case: dict) -> dict:
                     log.append(('done', name))
                 except BaseException as e:  # noqa
                     res.append({'begin': t_begin, 'end': loop.time(), 'exc': type(e).__name__})
-                    log.append(('failed', name, type(e).__name__, j, frozenset(server.valid), frozenset(server.closed_at)))
+                    log.append(('failed', name, type(e).__name__, j, frozenset(c for c in server.valid if server.exp.get(c) is None or loop.time() < server.exp[c]), frozenset(server.closed_at)))
                 if gap:
                     await asyncio.sleep(gap)
 
@@ -987,12 +1010,21 @@ def vault_labels(case: dict, log: list[tuple]) -> list[str]:
     """Per-task events -> labels of Model/Vault.v (one per critical section)."""
     keyn = lambda k: int(str(k)[1:])
     rn = lambda name: int(name[1:])
+    exp = {int(c): e for c, e in case.get('exp', {}).items()}
     phase: dict[str, str] = {}
     labels: list[str] = []
     for i, e in enumerate(log):
         nxt = log[i + 1] if i + 1 < len(log) else None
         kind = e[0]
-        if kind == 'select':
+        if kind == 'expire-enter':
+            waits = not (nxt is not None and nxt[0] == 'expire-exit' and nxt[1] == e[1])
+            labels.append(f'Expire {rn(e[1])} {cq.cZ(_int(e[2]))} {cq.cbool(waits)}')
+            if waits:
+                phase[e[1]] = 'expwait'
+        elif kind == 'expire-exit':
+            if phase.get(e[1]) == 'expwait':
+                phase.pop(e[1], None)
+        elif kind == 'select':
             labels.append(f'Select {rn(e[1])} {keyn(e[2])} {e[3]}')
         elif kind == 'select-err':
             labels.append(f'SelectErr {rn(e[1])}')
@@ -1001,7 +1033,10 @@ def vault_labels(case: dict, log: list[tuple]) -> list[str]:
         elif kind == 'inv-enter':
             phase[e[1]] = 'enter'
         elif kind == 'inv-exit':
-            phase.pop(e[1], None)
+            if e[2] == 'ok':
+                phase[e[1]] = 'recheck'       # _items resumes after the yield: its re-check comes next
+            else:
+                phase.pop(e[1], None)
         elif kind == 'acq':
             ph = phase.get(e[1])
             exits = nxt is not None and nxt[0] == 'inv-exit' and nxt[1] == e[1]
@@ -1011,12 +1046,21 @@ def vault_labels(case: dict, log: list[tuple]) -> list[str]:
             elif ph == 'blocked':
                 o = 'WStill' if not exits else ('WResumed' if nxt[2] == 'ok' else 'WLoginErr')
                 labels.append(f'Wake {rn(e[1])} {o}')
+            elif ph == 'expwait':
+                resumed = nxt is not None and nxt[0] == 'expire-exit' and nxt[1] == e[1]
+                labels.append(f"WakeExp {rn(e[1])} {'WResumed' if resumed else 'WStill'}")
+            elif ph == 'recheck':
+                # does the generator go round again, or does @authenticated fall out of its loop?
+                later = [x for x in log[i + 1:] if len(x) > 1 and x[1] == e[1]
+                         and x[0] in ('expire-enter', 'select', 'select-err', 'failed', 'done', 'inv-enter', 'begin')]
+                stops = bool(later) and later[0][0] == 'failed' and later[0][2] == 'RuntimeError'
+                labels.append(f'Recheck {rn(e[1])} {cq.cbool(not stops)}')
+                phase.pop(e[1], None)
         elif kind == 'wake-empty':
             labels.append('WakeEmpty')
         elif kind == 'populate':
-            labels.append('Populate ' + cq.clist(f'({keyn(k)}%nat, {cq.cZ(c * 4 + p)}, {cq.cZ(p)})' for k, c, p in e[1]))
-        elif kind == 'failed':
-            pass
+            labels.append('Populate ' + cq.clist(
+                f'({keyn(k)}%nat, {cq.cZ(c * 4 + p)}, {cq.cZ(p)}, {coz(exp.get(c))})' for k, c, p in e[1]))
     return labels
 
 
@@ -1061,7 +1105,16 @@ def gen_vault_case(r: Any) -> dict:
             cur = fresh
             fresh += 1
     requesters = [[r.choice([0, 0, 1, 2, 5]), r.choice([1, 2, 4, 8]), r.choice([0, 1, 3, 6])] for _ in range(nreq)]
-    return {'init': init, 'latency': latency, 'revoke': revoke, 'logins': logins, 'requesters': requesters}
+    case = {'init': init, 'latency': latency, 'revoke': revoke, 'logins': logins, 'requesters': requesters}
+    if r.random() < 0.25:      # some credentials carry an expiration (a function of their value)
+        exp = {'100': r.choice([2, 4, 7, 12])}
+        t_exp = exp['100']
+        for c in range(101, fresh):
+            if r.random() < 0.5:
+                t_exp += r.choice([3, 6, 10, 40])
+                exp[str(c)] = t_exp
+        case['exp'] = exp
+    return case
 
 
 def burst_cases() -> list[dict]:
@@ -1083,6 +1136,27 @@ def burst_cases() -> list[dict]:
     return out
 
 
+def expiry_cases() -> list[dict]:
+    """Credentials with an expiration; 1..3 requests are in flight when it passes; another request enters the
+    vault afterwards (it drops the expired item and re-authenticates) before / after the first ones come back
+    with their 401 or closed session."""
+    out = []
+    for n in (1, 2, 3):
+        for login_lat in (0, 3):
+            for lat, late in ((4, 6), (6, 6), (3, 9)):
+                # expiry at t=5; n requests start at t=3..4 (in flight across t=5); one more enters at t=`late`
+                reqs = [[3 + (i % 2), 2, 2] for i in range(n)] + [[late, 2, 1]]
+                out.append({'init': [['k0', 100, 0]], 'exp': {'100': 5, '101': 60}, 'latency': lat, 'revoke': [],
+                            'logins': [{'lat': login_lat, 'give': [['k0', 101, 0, True]]}], 'requesters': reqs})
+    # nobody else enters: the in-flight request itself gets the 401 for the expired token
+    out.append({'init': [['k0', 100, 0]], 'exp': {'100': 5}, 'latency': 4, 'revoke': [],
+                'logins': [{'lat': 1, 'give': [['k0', 101, 0, True]]}], 'requesters': [[3, 3, 0]]})
+    # expiry with nothing in flight
+    out.append({'init': [['k0', 100, 0]], 'exp': {'100': 5}, 'latency': 1, 'revoke': [],
+                'logins': [{'lat': 0, 'give': [['k0', 101, 0, True]]}], 'requesters': [[0, 2, 0], [7, 2, 0]]})
+    return out
+
+
 def match_f1202(f: dict) -> bool:
     """F1202: credentials invalidated more than 3 invalidations (of the same key) ago are accepted again."""
     return f['sig'] == 'invalid-reused' and f['observed'].get('invalidations_since', 0) >= 3
@@ -1101,10 +1175,16 @@ def vault_case(ctx: fw.Ctx, case: dict, T: list) -> None:
     slog = out['server_log']
     n401_creds = sorted({rec['sess'] for rec in slog if rec.get('fault', ('',))[0] == 'status'})   # distinct sessions = items
     single_key = len(case['init']) == 1
+    exps = {int(c): e for c, e in case.get('exp', {}).items()}
     # every login so far handed out exactly one set of valid credentials that had never been invalidated before
-    fresh_only = all(len(s['give']) == 1 and s['give'][0][3]
+    # ... and that were not expired when handed out
+    fresh_only = len(out['logins']) <= len(case['logins']) and all(len(s['give']) == 1 and s['give'][0][3]
                      and not (s['give'][0][1] in out['closed_at'] and out['closed_at'][s['give'][0][1]] <= t_login)
+                     and not (exps.get(s['give'][0][1]) is not None and exps[s['give'][0][1]] <= t_login + s['lat'])
                      for s, t_login in zip(case['logins'], out['logins']))
+    ctx.count('vault_expirations', 'none' if not exps else 'initial-only' if len(exps) == 1 else 'several')
+    ctx.count('vault_expiry_waits', str(min(sum(1 for i, e in enumerate(out['log']) if e[0] == 'expire-enter'
+                                                and not (i + 1 < len(out['log']) and out['log'][i + 1][0] == 'expire-exit')), 4)))
     ctx.count('vault_requesters', str(len(case['requesters'])))
     ctx.count('vault_reauths', str(min(len(out['logins']), 6)))
     ctx.count('vault_401_creds', str(min(len(n401_creds), 6)))
@@ -1123,9 +1203,12 @@ def vault_case(ctx: fw.Ctx, case: dict, T: list) -> None:
     if len(out['logins']) > len(out['closed_sessions']) + barren:
         ctx.fail('more re-authentications than invalidated credentials', case,
                  observed={'logins': out['logins'], 'invalidated_sessions': out['closed_sessions']}, sig='extra-reauth')
-    if single_key and fresh_only and len(out['logins']) != len(n401_creds):
-        ctx.fail('a burst of 401s on the same credentials did not cause exactly one re-authentication', case,
-                 observed={'logins': out['logins'], 'sessions_answered_401': n401_creds}, sig='reauth-count')
+    # one login per burst: a burst = one session whose credentials were answered 401 or dropped at their expiry
+    ended = sorted(set(n401_creds) | set(out['closed_sessions']))
+    if single_key and fresh_only and len(out['logins']) != len(ended):
+        ctx.fail('a burst of 401s / an expiry of the same credentials did not cause exactly one re-authentication', case,
+                 observed={'logins': out['logins'], 'sessions_answered_401': n401_creds, 'sessions_closed': out['closed_sessions']},
+                 sig='reauth-count')
     # (2) invalidated credentials are not used again (requests that reach the server)
     inval_order = sorted(out['closed_at'], key=lambda c: out['closed_at'][c])
     for rec in slog:
@@ -1194,7 +1277,7 @@ def vault_case(ctx: fw.Ctx, case: dict, T: list) -> None:
     ctx.count('vault_burst_size', str(min(max([len(v) for v in held.values()] or [0]), 6)))
     # ---- trace acceptance ----
     labels = vault_labels(case, out['log'])
-    src = cq.clist(f"({int(k[1:])}%nat, {cq.cZ(c * 4 + p)}, {cq.cZ(p)})" for k, c, p in case['init'])
+    src = cq.clist(f"({int(k[1:])}%nat, {cq.cZ(c * 4 + p)}, {cq.cZ(p)}, {coz(exps.get(c))})" for k, c, p in case['init'])
     fin = out['final']
     chk = (f"(fun s => list_eqb (pair_eqb Nat.eqb Nat.eqb) (cur_ids s) "
            f"{cq.clist(f'({int(k[1:])}%nat, {i}%nat)' for k, i in fin['current'])} && Bool.eqb (ready s) {cq.cbool(fin['ready'])}"
@@ -1556,7 +1639,7 @@ def run(ctx: fw.Ctx) -> int:
     for c in corpus:
         if c.get('kind') == 'vault':
             vault_case(ctx, c['case'], T_vault)
-    for c in burst_cases():
+    for c in burst_cases() + expiry_cases():
         vault_case(ctx, c, T_vault)
     for _ in range(ctx.scale(800, 8000)):
         c = gen_vault_case(r)
